@@ -124,10 +124,20 @@ func (f *MapField) GenReadFrom() (string, error) {
 				{{.M.KeyField.GenReadFrom}}
 				typ := enc.TLNum(0)
 				l := enc.TLNum(0)
-				{{call .GenTlvNumberDecode "typ"}}
-				{{call .GenTlvNumberDecode "l"}}
-				if typ != {{.M.ValField.TypeNum}} {
-					return nil, enc.ErrFailToParse{TypeNum: {{.M.KeyField.TypeNum}}, Err: enc.ErrUnrecognizedField{TypeNum: typ}}
+				for {
+					{{call .GenTlvNumberDecode "typ"}}
+					{{call .GenTlvNumberDecode "l"}}
+					if typ == {{.M.ValField.TypeNum}} {
+						break
+					}
+					// An unrecognized element between a key and its value is
+					// skipped under the same rule as anywhere else.
+					if !ignoreCritical && {{.IsCritical}} {
+						return nil, enc.ErrFailToParse{TypeNum: {{.M.KeyField.TypeNum}}, Err: enc.ErrUnrecognizedField{TypeNum: typ}}
+					}
+					if err = reader.Skip(int(l)); err != nil {
+						return nil, enc.ErrFailToParse{TypeNum: typ, Err: err}
+					}
 				}
 				{{.M.ValField.GenReadFrom}}
 				_ = value
@@ -141,9 +151,11 @@ func (f *MapField) GenReadFrom() (string, error) {
 	g.executeTemplate(templ, struct {
 		M                  *MapField
 		GenTlvNumberDecode func(string) (string, error)
+		IsCritical         string
 	}{
 		M:                  f,
 		GenTlvNumberDecode: GenTlvNumberDecode,
+		IsCritical:         `((typ <= 31) || ((typ & 1) == 1))`,
 	})
 	return g.output()
 }
